@@ -786,7 +786,17 @@ func reifyDuration(
 	var d time.Duration
 	var err error
 
-	switch v := val.(type) {
+	// a number produced by variable expansion means seconds like a literal
+	// number does: look at the value the reference resolves to
+	resolved := val
+	if dyn, ok := val.(*cfgDynamic); ok {
+		resolved, err = dyn.getValue(opts.opts)
+		if err != nil {
+			return reflect.Value{}, raiseInvalidDuration(val, err)
+		}
+	}
+
+	switch v := resolved.(type) {
 	case *cfgInt:
 		if v.i > maxDurationSeconds || v.i < -maxDurationSeconds {
 			return reflect.Value{}, raiseConversion(opts.opts, val, ErrOverflow, "duration")
